@@ -951,7 +951,13 @@ fn norms_f64(st: &mut Stats, rng: &mut Rng) {
     if n > 0 && rng.chance(0.25) {
         // common scale 2^ex with ex anywhere in the normal range: also the middle ranges where squares are
         // representable but 8th powers are not
-        let ex = rng.int(-900, 900) as i32;
+        // half of the cases sit at the over/underflow thresholds of x^p (2^(+-1024/p), 2^(-1074/p)) for the p values in
+        // use, where a mis-sized "no scaling needed" window shows first; the rest anywhere in the normal range
+        let ex = if rng.bool() { rng.int(-900, 900) as i32 } else {
+            let pp = *rng.pick(&[2.0f64, 2.5, 3.0, 5.0, 8.0]);
+            let base = *rng.pick(&[1024.0f64, 1022.0, -1022.0, -1074.0, 1000.0, -1000.0]) / pp;
+            (base.round() as i32 + rng.int(-3, 1) as i32).clamp(-1000, 1000)
+        };
         let big = ex > 0;
         let e: Vec<f64> = a.iter().map(|x| (if x.signum() == 0.0 { 1.0 } else { x.signum() }) * 2f64.powi(ex) * (1.0 + x.abs().min(1.0))).collect();
         let ni = e.iter().fold(0f64, |m, x| m.max(x.abs()));
